@@ -59,12 +59,16 @@ def _pairs():
     P.append(("private-only",
               dict(chans=[channel("X", sample("s", 1, normfactor()), sample("b", 1, normsys("kx")))]),
               dict(chans=[channel("Y", sample("s", 2, normfactor("nu")), sample("b", 2, histosys("hy", 2)))], poi="nu")))
+    P.append(("shared-name-across-types",
+              dict(chans=[channel("L1", sample("sig", 2, normfactor(), normsys("JES")), sample("bkg", 2, histosys("JES", 2), normsys("xs")))],
+                   pars=[{"name": "JES", "auxdata": ["$x"], "inits": ["$x"], "fixed": True}, {"name": "xs", "inits": ["$x"]}]),
+              dict(chans=[channel("R1", sample("sig", 1, normfactor(), normsys("JES")))])))
     return P
 
 
 def items(tier, seed):
     out = []
-    for pi, (tag, l, r) in enumerate(_pairs()):
+    for pi, (tag, l, r) in enumerate(_pairs()[:3]):
         for join in ("none", "outer", "left outer", "right outer"):
             for merge in ((False,) if join == "none" else (False, True)):
                 for same_meas in ((False,) if join == "none" else (False, True)):
@@ -74,7 +78,7 @@ def items(tier, seed):
     out.append(("refuse", "measurement"))
     out.append(("refuse", "parameter"))
     out.append(("refuse", "misc"))
-    for pi in range(3):
+    for pi in range(len(_pairs())):
         out.append(("prune", pi))
         out.append(("rename", pi))
         out.append(("sorted", pi))
@@ -411,7 +415,7 @@ def harness_for(item):
         samples = sorted({s["name"] for c in w["channels"] for s in c["samples"]})
         chans_ = [c["name"] for c in w["channels"]]
         sels = [dict(modifiers=[mods[0]]), dict(modifiers=mods[:2]), dict(samples=[samples[-1]]), dict(measurements=["second"]),
-                dict(modifier_types=["normsys"]), dict(modifiers=[mods[-1]], samples=[samples[-1]])]
+                dict(modifier_types=["normsys"]), dict(modifier_types=["histosys"]), dict(modifiers=[mods[-1]], samples=[samples[-1]])]
         if len(chans_) > 1:
             sels += [dict(channels=[chans_[-1]]), dict(channels=[chans_[0]], modifiers=[mods[0]])]
         for k, sel in enumerate(sels):
